@@ -47,10 +47,20 @@ func equivalence(c dspace.Case, w *enum.Worker) {
 			continue // C01's business
 		}
 		s0 := safeSig(p0)
-		for k := 1; k < 4; k++ {
+		for k := 1; k < 5; k++ {
 			o := base
 			o.NoCopy, o.Pool = k&1 != 0, k&2 != 0
 			in := corpus.Exact(c.Data)
+			if k == 4 {
+				// NoCopy the way it is used with a read buffer: the packet is the front of a larger
+				// array whose rest holds other bytes
+				o.NoCopy = true
+				big := make([]byte, len(c.Data)+96)
+				for i := range big {
+					big[i] = 0xEE
+				}
+				in = big[:copy(big, c.Data)]
+			}
 			p, e := decode(in, c.First, o)
 			if e != nil {
 				w.Violation("c04|panic-with-options|"+c.First.Name, fmt.Sprintf("NewPacket panicked with %+v: %v", o, e))
@@ -65,6 +75,9 @@ func equivalence(c dspace.Case, w *enum.Worker) {
 				name := "nocopy"
 				if o.Pool && !o.NoCopy {
 					name = "pool"
+				}
+				if k == 4 {
+					name = "nocopy-of-a-larger-buffer"
 				}
 				w.Violation("c04|result-differs-from-default|"+name+"|"+divergence(p, p0, c.First.Name), fmt.Sprintf("options %+v: packet differs from the default decode:\n%.600s\nvs default\n%.600s", o, s, s0))
 			}
